@@ -35,6 +35,10 @@ C11_Pure ==
            ("reuse" \in DOMAIN T) => Same(T.reuse.gotAlt, T.reuse.wantAlt))
   /\ Check("running a parsed script with other variable texts in between changed what it does with the first ones",
            ("reuse" \in DOMAIN T) => Same(T.reuse.again, T.reuse.first))
+  /\ Check("a parsed script run with other variable texts against a store that answers exactly what is asked differs from the same run on a freshly parsed script",
+           ("reusex" \in DOMAIN T) => Same(T.reusex.gotAlt, T.reusex.wantAlt))
+  /\ Check("running a parsed script with other variable texts in between (exact store) changed what it does with the first ones",
+           ("reusex" \in DOMAIN T) => Same(T.reusex.again, T.reusex.first))
   /\ Check("the variables map was modified (texts padded with white space)", ("paddedVarsUnchanged" \in DOMAIN T) => T.paddedVarsUnchanged)
   /\ Check("repeated runs differ (non-determinism)", \A i \in 1..Len(T.repeats) : Same(T.repeats[i], T.seq))
   /\ Check("repeated runs fail with differently worded errors (non-determinism of the message)",
